@@ -265,3 +265,23 @@ void h_CloseFile(void) {
         VREACH("old");
     }
 }
+
+/* DreheCodes (TurnWords targets: the bytes of every listing word are reversed before the line is written, and turned
+ * back afterwards): byte j of the buffer ends up at j ^ (word size - 1), every byte exactly once; applying it twice
+ * restores the buffer.  Bounded: lines of at most 16 bytes (each word is handled on its own). */
+void h_DreheCodes(void) {
+    unsigned lg, j; unsigned char src, other; int n;
+    VND(lg, uint); VASSUME(lg == 1 || lg == 2 || lg == 4);
+    g_gran = 1; VND(n, int); VASSUME(n >= 0 && n <= 16 && (n % (int)lg) == 0);
+    CodeLen = n; ActPC = SegCode; { int i; for (i = 0; i < SegCountPlusStruct; i++) Grans[i] = 1; }
+    MaxCodeLen = 16; BAsmCode = malloc(16); VASSUME(BAsmCode != NULL); WAsmCode = (Word*)BAsmCode; DAsmCode = (LongWord*)BAsmCode;
+    VND_BYTES(BAsmCode, 16);
+    ActListGran = (ShortInt)lg;
+    VND(j, uint); VASSUME(j < 16 && (int)j < n);
+    src = BAsmCode[j]; other = BAsmCode[j ^ (lg - 1)];
+    DreheCodes();
+    VPOST(BAsmCode[j ^ (lg - 1)] == src && BAsmCode[j] == other, "C04: turning reverses the bytes inside every listing word (byte j <-> byte j ^ (word size - 1))");
+    DreheCodes();
+    VPOST(BAsmCode[j] == src, "C04: turning twice restores the line's code (WriteBytes turns back after writing)");
+    VREACH("end");
+}
